@@ -1081,7 +1081,8 @@ class ExcelCompiler:
 
             self.log.debug(f"Handling {dependant.address}")
 
-            if self._values_changed and not dependant.needs_calc:
+            if (self._values_changed and dependant.formula and
+                    not dependant.needs_calc):
                 # left from a build which failed before a value was
                 # changed, its stored result is not known to be good
                 self._reset(dependant)
